@@ -446,6 +446,78 @@ theorem ds_question_judged_above_its_owner (qname : Name) (h : qname ≠ []) :
 example : insecureProofName ["test", "zone", "sub"] true = ["test", "zone"] := by decide
 example : insecureProofName ["test", "zone", "sub"] false = ["test", "zone", "sub"] := by decide
 
+/-- **A validated denial carries only the signer zone's records** (fadc30d): every record that
+`authority` leaves in the authority section of a reply it is about to mark AD is owned inside the
+chosen signer's zone — hence (NS aside) one `verifyRRSIG` demanded a signature for; an out-of-zone
+record, which the signature check skips as a referral remnant, cannot ride along. -/
+theorem validated_denial_authority_in_zone {signer : Name} {l : List SecRR} {r : SecRR}
+    (h : r ∈ filterToZone signer l) : nameInZone r.owner signer = true :=
+  (filterToZone_sound h).2.1
+
+example : filterToZone ["test", "zone"] [⟨["test", "zone"], 6, none⟩, ⟨["test", "other", "victim"], 1, none⟩] =
+    [⟨["test", "zone"], 6, none⟩] := by decide
+
+/-! ## how long a validated response is cached -/
+
+theorem sectionBound_le_start (a : Bool) : ∀ (l : List TTLItem) (s : Nat), sectionBound a l s ≤ s := by
+  intro l
+  induction l with
+  | nil => intro s; simp [sectionBound]
+  | cons x t ih =>
+    intro s
+    unfold sectionBound
+    simp only [List.foldl_cons]
+    exact Nat.le_trans (ih _) (Nat.min_le_left _ _)
+
+theorem sectionBound_le_item (a : Bool) : ∀ (l : List TTLItem) (s : Nat) (x : TTLItem), x ∈ l →
+    sectionBound a l s ≤ itemBound a x := by
+  intro l
+  induction l with
+  | nil => intro s x hx; simp at hx
+  | cons y t ih =>
+    intro s x hx
+    unfold sectionBound
+    simp only [List.foldl_cons]
+    rcases List.mem_cons.mp hx with rfl | hin
+    · exact Nat.le_trans (sectionBound_le_start a t _) (Nat.min_le_right _ _)
+    · exact ih _ x hin
+
+/-- **A cached response never outlives a signature it carries — in whichever section.**  For every RRSIG
+of the answer, AUTHORITY or additional section with `left` seconds to its expiration the entry's
+lifetime is at most `left` seconds, apart from the 5 s floor; so a denial whose SOA / NSEC
+signatures lapse sooner than the negative TTL is re-resolved, not served (with AD) past them. -/
+theorem cacheTTL_within_every_signature (answer ns extra : List TTLItem) (ttl : Nat) (left : Int)
+    (h : TTLItem.sig ttl left ∈ answer ∨ TTLItem.sig ttl left ∈ ns ∨ TTLItem.sig ttl left ∈ extra) (hl : 0 < left) :
+    cacheTTL answer ns extra ≤ max 5 left.toNat := by
+  have hb : ∀ a, itemBound a (TTLItem.sig ttl left) ≤ left.toNat := by
+    intro a
+    unfold itemBound sigTTL
+    have : ¬ left ≤ 0 := by omega
+    simp only [this, if_false]
+    split <;> omega
+  have key : sectionBound false extra (sectionBound true ns (sectionBound false answer 86400)) ≤ left.toNat := by
+    rcases h with h | h | h
+    · have h1 := sectionBound_le_item false answer 86400 _ h
+      have h2 := sectionBound_le_start true ns (sectionBound false answer 86400)
+      have h3 := sectionBound_le_start false extra (sectionBound true ns (sectionBound false answer 86400))
+      have := hb false
+      omega
+    · have h1 := sectionBound_le_item true ns (sectionBound false answer 86400) _ h
+      have h3 := sectionBound_le_start false extra (sectionBound true ns (sectionBound false answer 86400))
+      have := hb true
+      omega
+    · have h1 := sectionBound_le_item false extra (sectionBound true ns (sectionBound false answer 86400)) _ h
+      have := hb false
+      omega
+  unfold cacheTTL
+  split
+  · omega
+  · simp only
+    split <;> omega
+
+example : cacheTTL [] [.soa 3600 300, .sig 3600 20, .rr 300, .sig 300 20] [] = 20 := by decide
+example : cacheTTL [.rr 300, .sig 300 4000] [] [] = 300 := by decide
+
 /-! ## candidate signers -/
 
 theorem mem_insertSigner (x a : Name) (l : List Name) : a ∈ insertSigner x l ↔ a = x ∨ a ∈ l := by
@@ -801,7 +873,8 @@ theorem gates_present_in_tree :
     SdnsVerif.Gen.C01.shape_bare_denials_go_through_authority = true ∧
     SdnsVerif.Gen.C01.shape_key_fetch_is_validated = true ∧
     SdnsVerif.Gen.C01.shape_cd_fetch_only_before_explicit_validation = true ∧
-    SdnsVerif.Gen.C01.shape_wildcard_proof_from_filtered_authority = true := by
+    SdnsVerif.Gen.C01.shape_wildcard_proof_from_filtered_authority = true ∧
+    SdnsVerif.Gen.C01.shape_validated_denial_keeps_signer_zone_only = true := by
   decide
 
 /-! ## a zone is treated as unsigned only on proof -/
